@@ -305,8 +305,14 @@ def callVia (t : Transport) (r : Nat) (req rep : List Op) (errp : List (List Op)
 in-process transport has it. -/
 def callLoop (q r : Nat) (req rep : List Op) (errp : List (List Op)) : CallOut := callVia (httpTransport q) r req rep errp
 
-/-- `fNatsTransport` + `fNatsServer`: both limits are 1 MiB. -/
-def callNats (req rep : List Op) (errp : List (List Op)) : CallOut := callVia natsTransport natsMaxMessageSize req rep errp
+/-- `fNatsTransport` + `fNatsServer`: both limits are 1 MiB. The NATS client routes a reply
+to its caller by the op id in the reply's frugal header (registry); a garbage reply has lost
+its header (every failing write resets the buffer), is dropped there, and the caller times
+out. -/
+def callNats (req rep : List Op) (errp : List (List Op)) : CallOut :=
+  match callVia natsTransport natsMaxMessageSize req rep errp with
+  | ⟨true, some .other⟩ => ⟨true, some .timedOut⟩
+  | o => o
 
 /-- `Oneway` / `Publish`: `prepareMessage`, the transport's own check, hand-over to the wire;
 there is no reply (`fHTTPTransport.Oneway` discards it). -/
